@@ -30,24 +30,24 @@ def ReqInv (s : State) : Prop :=
 theorem reqInv_init : ReqInv State.init := by
   intro n id h; simp [State.init, Conn.half, Half.init] at h
 
-theorem handleReplyStep_byId {cs cs' : CtxSt} {id : ReqId} {ok : Bool} {more : List MOp} {o : Out}
+theorem handleReplyStep_byId {cs cs' : CtxSt} {id : ReqId} {ok : Bool} {more : List MOp} {o : Out} (hp : PendOk cs)
     (h : handleReplyStep cs id ok = some (cs', more, o)) :
-    (∀ id', cs'.byId id' ≠ none → cs.byId id' ≠ none ∨ cs.nextReq ≤ id') ∧
-    (id < cs.nextReq ∨ cs.byId id = none → cs'.byId id = none) := by
+    (∀ id', cs'.byId id' ≠ none → cs.byId id' ≠ none ∨ cs.nextReq ≤ id') ∧ cs'.byId id = none := by
   unfold handleReplyStep at h
   split at h
   · rename_i hn
     simp only [Option.some.injEq, Prod.mk.injEq] at h; obtain ⟨rfl, -, -⟩ := h
-    exact ⟨fun _ h => Or.inl h, fun _ => hn⟩
-  · split at h
-    · rename_i pid hp hn
-      simp only [Option.some.injEq, Prod.mk.injEq] at h; obtain ⟨rfl, -, -⟩ := h
-      refine ⟨fun _ h => Or.inl h, fun hh => ?_⟩
-      rcases hh with _ | hh
-      all_goals sorry
+    exact ⟨fun _ h => Or.inl h, hn⟩
+  · rename_i pid hpid
+    have hlt : id < cs.nextReq := by
+      rcases Nat.lt_or_ge id cs.nextReq with hlt | hge
+      · exact hlt
+      · have := (hp.fresh id hge).1; rw [hpid] at this; cases this
+    split at h
+    · rename_i hn; exact absurd hn (hp.byId_some id pid hpid)
     · split at h
       · simp only [Option.some.injEq, Prod.mk.injEq] at h; obtain ⟨rfl, -, -⟩ := h
-        refine ⟨?_, fun _ => by simp [upd]⟩
+        refine ⟨?_, by simp [upd]⟩
         intro id' hne; simp only [upd] at hne; split at hne
         · exact absurd rfl hne
         · exact Or.inl hne
@@ -59,11 +59,657 @@ theorem handleReplyStep_byId {cs cs' : CtxSt} {id : ReqId} {ok : Bool} {more : L
             · split at hne
               · exact absurd rfl hne
               · exact Or.inl hne
-          · sorry
+          · have : id ≠ cs.nextReq := Nat.ne_of_lt hlt
+            simp [upd, this]
         · simp only [Option.some.injEq, Prod.mk.injEq] at h; obtain ⟨rfl, -, -⟩ := h
-          refine ⟨?_, fun _ => by simp [upd]⟩
+          refine ⟨?_, by simp [upd]⟩
           intro id' hne; simp only [upd] at hne; split at hne
           · exact absurd rfl hne
           · exact Or.inl hne
+
+set_option maxHeartbeats 2000000 in
+/-- request ids become outstanding only when they are created (`nextReq`) -/
+theorem microStep_byId_mono {s s' : State} {th : Th} {ch ch2 : Nat} {op : MOp} {rest : List MOp} {o : Out}
+    (hp : PendOk (s.ctx th.ctx)) (hs : microStep s th ch ch2 op rest = some (s', o)) (c : Ctx) (id : ReqId)
+    (h : (s'.ctx c).byId id ≠ none) : (s.ctx c).byId id ≠ none ∨ (s.ctx c).nextReq ≤ id := by
+  by_cases e : c = th.ctx
+  · subst e
+    cases op <;> simp only [microStep] at hs
+    all_goals (try (split at hs))
+    all_goals (try (split at hs))
+    all_goals (try (split at hs))
+    all_goals (try (split at hs))
+    all_goals (try (simp at hs))
+    all_goals (try (obtain ⟨rfl, -⟩ := hs))
+    all_goals (try (have hh := (handleReplyStep_byId hp ‹handleReplyStep _ _ _ = some _›).1))
+    all_goals (simp only [setProg_ctx, setCtx_ctx, if_true, State.setProg, peerRemovedStep] at h)
+    all_goals (try (exact Or.inl h))
+    all_goals (try (exact hh id h))
+    all_goals (simp only [upd] at h; split at h)
+    all_goals first
+      | (rename_i e; exact Or.inr (Nat.le_of_eq e.symm))
+      | exact Or.inl h
+  · rw [(microStep_frame hs).ctx_other c e] at h; exact Or.inl h
+
+/-- after `handleReply id` the request `id` is no longer outstanding -/
+theorem microStep_handleReply_byId {s s' : State} {th : Th} {ch ch2 : Nat} {id : ReqId} {ok : Bool} {rest : List MOp} {o : Out}
+    (hp : PendOk (s.ctx th.ctx)) (hs : microStep s th ch ch2 (.handleReply id ok) rest = some (s', o)) :
+    (s'.ctx th.ctx).byId id = none := by
+  simp only [microStep] at hs
+  split at hs
+  · simp at hs
+  · rename_i cs' more o' heq
+    simp only [Option.some.injEq, Prod.mk.injEq] at hs
+    obtain ⟨rfl, -⟩ := hs
+    simp only [setProg_ctx, setCtx_ctx, if_true]
+    exact (handleReplyStep_byId hp heq).2
+
+/-- the server's socket thread executes the operation that works on the request: the request moves on -/
+theorem served_head {s s' : State} {ch ch2 : Nat} {op : MOp} {rest : List MOp} {o : Out} {n : ConnId} {id : ReqId}
+    (hrg : RegInv s) (htd : TdInv s) (hprog : s.prog (.sock ((s.conn n).half false).owner) = op :: rest)
+    (hsv : op.serves n id = true)
+    (hs : microStep s (.sock ((s.conn n).half false).owner) ch ch2 op rest = some (s', o)) : Served s' n id := by
+  have hown := microStep_owner hs
+  have hfl := microStep_fields hs
+  cases op <;> simp only [MOp.serves] at hsv <;> try contradiction
+  case sendChk d m =>
+    cases m <;> simp only [MOp.serves] at hsv <;> try contradiction
+    rename_i id' ok
+    simp only [Bool.and_eq_true, decide_eq_true_eq] at hsv
+    obtain ⟨rfl, rfl⟩ := hsv
+    by_cases hc : ((s.ctx ((s.conn n).half false).owner).peers (.alias n)).isSome = true ∧
+        (s.passed (.sock ((s.conn n).half false).owner) || !(s.ctx ((s.conn n).half false).owner).routerDown) = true
+    · -- handed to `enq`
+      right; right; left
+      simp only [microStep, Th.ctx, hc.1, hc.2, Bool.and_self, if_true, Option.some.injEq, Prod.mk.injEq] at hs
+      obtain ⟨rfl, -⟩ := hs
+      refine ⟨.enq (.alias n) (.subReply id' ok), ?_, by simp [MOp.serves]⟩
+      simp [State.setProg, upd]
+    · -- dropped: the peer is no longer registered (then this end is closed), or the context is stopping
+      by_cases hrd : (s.ctx ((s.conn n).half false).owner).routerDown = true
+      · right; right; right; right; right; left
+        rw [hown, hfl.routerDown]; exact hrd
+      · left
+        rw [(microStep_half hs n false).resolve_right (by rintro ⟨-, -, -, e⟩; cases e)]
+        cases hop : ((s.conn n).half false).isOpen with
+        | false => rfl
+        | true =>
+          exfalso
+          have hpn : (s.ctx ((s.conn n).half false).owner).peers (.alias n) = none := by
+            cases hq : (s.ctx ((s.conn n).half false).owner).peers (.alias n) with
+            | none => rfl
+            | some x =>
+              exfalso; apply hc
+              simp only [hq, Option.isSome_some, true_and]
+              simp only [Bool.not_eq_true] at hrd
+              simp [hrd]
+          rcases hrg.reg n false hop with hr | hr
+          · simp only [srcName, Bool.false_eq_true, if_false] at hr
+            rw [hpn] at hr; cases hr
+          · have hsh := htd.sock ((s.conn n).half false).owner
+            rw [hprog] at hsh hr
+            generalize hl : MOp.sendChk (Peer.alias n) (Msg.subReply id' ok) :: rest = l at hsh
+            cases hsh with
+            | free hfree =>
+              subst hl
+              have := hfree _ hr; simp [MOp.isTd] at this
+            | pop => simp at hl
+            | rem => simp at hl
+            | close => simp at hl
+  case enq d m =>
+    cases m <;> simp only [MOp.serves] at hsv <;> try contradiction
+    rename_i id' ok
+    simp only [Bool.and_eq_true, decide_eq_true_eq] at hsv
+    obtain ⟨rfl, rfl⟩ := hsv
+    right; right; right; left
+    simp only [microStep, Option.some.injEq, Prod.mk.injEq] at hs
+    obtain ⟨rfl, -⟩ := hs
+    refine ⟨ok, ?_⟩
+    simp [State.setProg, State.setCtx, upd, Th.ctx]
+  case reqChk1 src id' ob sg =>
+    simp only [Bool.and_eq_true, decide_eq_true_eq] at hsv
+    obtain ⟨rfl, rfl⟩ := hsv
+    right; right; left
+    simp only [microStep] at hs
+    split at hs <;> (simp only [Option.some.injEq, Prod.mk.injEq] at hs; obtain ⟨rfl, -⟩ := hs)
+    · exact ⟨.reqChk2 (.alias n) id' ob sg, by simp [State.setProg, State.setCtx, upd], by simp [MOp.serves]⟩
+    · exact ⟨.sendChk (.alias n) (.subReply id' false), by simp [State.setProg, State.setCtx, upd], by simp [MOp.serves]⟩
+  case reqChk2 src id' ob sg =>
+    simp only [Bool.and_eq_true, decide_eq_true_eq] at hsv
+    obtain ⟨rfl, rfl⟩ := hsv
+    right; right; left
+    simp only [microStep] at hs
+    split at hs <;> (simp only [Option.some.injEq, Prod.mk.injEq] at hs; obtain ⟨rfl, -⟩ := hs)
+    · exact ⟨.sendChk (.alias n) (.subReply id' true), by simp [State.setProg, State.setCtx, upd], by simp [MOp.serves]⟩
+    · exact ⟨.sendChk (.alias n) (.subReply id' false), by simp [State.setProg, State.setCtx, upd], by simp [MOp.serves]⟩
+
+theorem reqInv_micro {s s' : State} {th : Th} {ch ch2 : Nat} {op : MOp} {rest : List MOp} {o : Out}
+    (h : ReqInv s) (hid : IdInv s) (hpk : PendInv s) (hrg : RegInv s) (htd : TdInv s) (hso : ∀ c, sockOps (s.prog (.sock c)))
+    (hprog : s.prog th = op :: rest) (hs : microStep s th ch ch2 op rest = some (s', o)) : ReqInv s' := by
+  have hf := microStep_frame hs
+  have hfl := microStep_fields hs
+  have hown := microStep_owner hs
+  intro n id hm hop hby
+  -- the client end is untouched
+  have hhalf : (s'.conn n).half true = (s.conn n).half true := by
+    rcases microStep_half hs n true with e | ⟨e, -, -, -⟩
+    · exact e
+    · rw [e] at hop; cases hop
+  rw [hhalf] at hm hop hby
+  have hby0 : (s.ctx ((s.conn n).half true).owner).byId id ≠ none := by
+    rcases microStep_byId_mono (hpk th.ctx) hs _ id hby with h1 | h1
+    · exact h1
+    · exact absurd (hid.pend n true id hm) (Nat.not_lt.2 h1)
+  have hsv := h n id hm hop hby0
+  have hsockop : ∀ c, th = .sock c → op.isSockOp = true := by
+    intro c e; have := hso c; rw [← e, hprog] at this; exact this op List.mem_cons_self
+  -- the server end: unchanged, or closed
+  rcases microStep_half hs n false with hsrv | ⟨hcl, -, -, -⟩
+  rotate_left
+  · exact Or.inl hcl
+  unfold Served
+  rw [hsrv, hhalf]
+  rcases hsv with h1 | ⟨ob, sg, b, h1⟩ | ⟨op', ho', hs'⟩ | ⟨ok, h1⟩ | ⟨ok, h1⟩ | h1 | ⟨ok, h1⟩
+  · exact Or.inl h1
+  · exact Or.inr (Or.inl ⟨ob, sg, b, h1⟩)
+  · by_cases e : Th.sock ((s.conn n).half false).owner = th
+    · subst e
+      rw [hprog] at ho'
+      rcases List.mem_cons.1 ho' with rfl | h0
+      · have := served_head hrg htd hprog hs' hs
+        unfold Served at this
+        rw [hsrv, hhalf] at this
+        exact this
+      · exact Or.inr (Or.inr (Or.inl ⟨op', microStep_sock_rest (hsockop _ rfl) hs _ h0, hs'⟩))
+    · rw [← hf.prog_other _ e] at ho'
+      exact Or.inr (Or.inr (Or.inl ⟨op', ho', hs'⟩))
+  · refine Or.inr (Or.inr (Or.inr (Or.inl ⟨ok, ?_⟩)))
+    by_cases e : ((s.conn n).half false).owner = th.ctx
+    · rw [e]; exact microStep_loopQ hs _ (by rw [← e]; exact h1)
+    · rw [hf.ctx_other _ e]; exact h1
+  · exact Or.inr (Or.inr (Or.inr (Or.inr (Or.inl ⟨ok, h1⟩))))
+  · exact Or.inr (Or.inr (Or.inr (Or.inr (Or.inr (Or.inl (by rw [hfl.routerDown]; exact h1))))))
+  · refine Or.inr (Or.inr (Or.inr (Or.inr (Or.inr (Or.inr ⟨ok, ?_⟩)))))
+    by_cases e : Th.sock ((s.conn n).half true).owner = th
+    · subst e
+      rw [hprog] at h1
+      rcases List.mem_cons.1 h1 with rfl | h0
+      · exfalso
+        exact hby (microStep_handleReply_byId (hpk _) hs)
+      · exact microStep_sock_rest (hsockop _ rfl) hs _ h0
+    · rw [hf.prog_other _ e]; exact h1
+
+/-- monotone transfer of `Served` -/
+theorem Served.mono {s s' : State} {n : ConnId} {id : ReqId} (h : Served s n id)
+    (hown : ∀ b, ((s'.conn n).half b).owner = ((s.conn n).half b).owner)
+    (hsrv : ((s.conn n).half false).isOpen = false → ((s'.conn n).half false).isOpen = false)
+    (hinF : ∀ ob sg b, Msg.subReq id ob sg b ∈ ((s.conn n).half false).inbox →
+      Msg.subReq id ob sg b ∈ ((s'.conn n).half false).inbox ∨ Served s' n id)
+    (hprog : ∀ c op, op ∈ s.prog (.sock c) → op ∈ s'.prog (.sock c))
+    (hlq : ∀ ok, Cb.smSend (.alias n) (.subReply id ok) ∈ (s.ctx ((s.conn n).half false).owner).loopQ →
+      Cb.smSend (.alias n) (.subReply id ok) ∈ (s'.ctx ((s.conn n).half false).owner).loopQ ∨ Served s' n id)
+    (hinT : ∀ ok, Msg.subReply id ok ∈ ((s.conn n).half true).inbox →
+      Msg.subReply id ok ∈ ((s'.conn n).half true).inbox ∨ Served s' n id)
+    (hrd : ∀ c, (s.ctx c).routerDown = true → (s'.ctx c).routerDown = true) : Served s' n id := by
+  rcases h with h1 | ⟨ob, sg, b, h1⟩ | ⟨op', ho', hs'⟩ | ⟨ok, h1⟩ | ⟨ok, h1⟩ | h1 | ⟨ok, h1⟩
+  · exact Or.inl (hsrv h1)
+  · rcases hinF _ _ _ h1 with h2 | h2
+    · exact Or.inr (Or.inl ⟨ob, sg, b, h2⟩)
+    · exact h2
+  · exact Or.inr (Or.inr (Or.inl ⟨op', by rw [hown]; exact hprog _ _ ho', hs'⟩))
+  · rcases hlq _ h1 with h2 | h2
+    · exact Or.inr (Or.inr (Or.inr (Or.inl ⟨ok, by rw [hown]; exact h2⟩)))
+    · exact h2
+  · rcases hinT _ h1 with h2 | h2
+    · exact Or.inr (Or.inr (Or.inr (Or.inr (Or.inl ⟨ok, h2⟩))))
+    · exact h2
+  · exact Or.inr (Or.inr (Or.inr (Or.inr (Or.inr (Or.inl (by rw [hown]; exact hrd _ h1))))))
+  · exact Or.inr (Or.inr (Or.inr (Or.inr (Or.inr (Or.inr ⟨ok, by rw [hown]; exact hprog _ _ h1⟩)))))
+
+/-- steps that change no connection, queue or router flag and start programs only on idle socket threads -/
+theorem ReqInv.quiet {s s' : State} (h : ReqInv s)
+    (hconn : s'.conn = s.conn) (hby : ∀ c, (s'.ctx c).byId = (s.ctx c).byId)
+    (hprog : ∀ c op, op ∈ s.prog (.sock c) → op ∈ s'.prog (.sock c))
+    (hlq : ∀ c, ∀ cb ∈ (s.ctx c).loopQ, cb ∈ (s'.ctx c).loopQ)
+    (hrd : ∀ c, (s.ctx c).routerDown = true → (s'.ctx c).routerDown = true) : ReqInv s' := by
+  intro n id hm hop hb
+  rw [hconn] at hm hop hb
+  rw [hby] at hb
+  refine (h n id hm hop hb).mono (fun b => by rw [hconn]) (fun e => by rw [hconn]; exact e) (fun _ _ _ hm => Or.inl (by rw [hconn]; exact hm))
+    hprog (fun _ hcb => Or.inl (hlq _ _ hcb)) (fun _ hm => Or.inl (by rw [hconn]; exact hm)) hrd
+
+theorem setProg_sock_mem (s : State) (c : Ctx) (pr : List MOp) (hidle : s.prog (.sock c) = []) (x : Ctx) (op : MOp)
+    (h : op ∈ s.prog (.sock x)) : op ∈ (s.setProg (.sock c) pr).prog (.sock x) := by
+  simp only [setProg_prog]; split
+  · rename_i e; simp only [Th.sock.injEq] at e; subst e; rw [hidle] at h; simp at h
+  · exact h
+
+theorem setCtx_byId_of_eq (s : State) (c : Ctx) (cs : CtxSt) (h : cs.byId = (s.ctx c).byId) (x : Ctx) :
+    ((s.setCtx c cs).ctx x).byId = (s.ctx x).byId := by
+  simp only [setCtx_ctx]; split
+  · rename_i e; subst e; exact h
+  · rfl
+
+theorem setCtx_byId_imp (s : State) (c : Ctx) (cs : CtxSt) (x : Ctx) (id : ReqId)
+    (hx : ((s.setCtx c cs).ctx x).byId id ≠ none) (h : cs.byId = (s.ctx c).byId) : (s.ctx x).byId id ≠ none := by
+  rw [setCtx_byId_of_eq s c cs h x] at hx; exact hx
+
+theorem setCtx_routerDown_imp (s : State) (c : Ctx) (cs : CtxSt) (h : (s.ctx c).routerDown = true → cs.routerDown = true) (x : Ctx)
+    (hx : (s.ctx x).routerDown = true) : ((s.setCtx c cs).ctx x).routerDown = true := by
+  simp only [setCtx_ctx]; split
+  · rename_i e; subst e; exact h hx
+  · exact hx
+
+theorem lq_tail (s : State) (c : Ctx) (cs : CtxSt) {cb0 : Cb} {q : List Cb} (hq : (s.ctx c).loopQ = cb0 :: q) (hcs : cs.loopQ = q)
+    (x : Ctx) (cb : Cb) (h : cb ∈ (s.ctx x).loopQ) : cb ∈ ((s.setCtx c cs).ctx x).loopQ ∨ (x = c ∧ cb = cb0) := by
+  simp only [setCtx_ctx]; split
+  · rename_i e; subst e
+    rw [hq] at h; rw [hcs]
+    rcases List.mem_cons.1 h with h0 | h0
+    · exact Or.inr ⟨rfl, h0⟩
+    · exact Or.inl h0
+  · exact Or.inl h
+
+/-- a queued reply whose peer is no longer registered: the server end of that connection is closed -/
+theorem closed_of_unregistered {s : State} (hrg : RegInv s) {n : ConnId}
+    (hidle : s.prog (.sock ((s.conn n).half false).owner) = [])
+    (hp : (s.ctx ((s.conn n).half false).owner).peers (.alias n) = none) : ((s.conn n).half false).isOpen = false := by
+  cases hop : ((s.conn n).half false).isOpen with
+  | false => rfl
+  | true =>
+    exfalso
+    rcases hrg.reg n false hop with hr | hr
+    · simp only [srcName, Bool.false_eq_true, if_false] at hr
+      rw [hp] at hr; cases hr
+    · rw [hidle] at hr; simp at hr
+
+theorem reqInv_nstep {s s' : State} (h : ReqInv s) (hid : IdInv s) (ht : TopoInv s) (hty : TypInv s) (hrg : RegInv s)
+    (hs : NStep s s') : ReqInv s' := by
+  cases hs
+  case beginPub c t ob sg _ _ =>
+    refine h.quiet rfl (fun _ => rfl) ?_ (fun _ _ h => h) (fun _ h => h)
+    intro x op hm; simp only [setProg_prog]; rw [if_neg (by simp)]; exact hm
+  case beginOther c t op _ _ _ =>
+    refine h.quiet rfl (fun _ => rfl) ?_ (fun _ _ h => h) (fun _ h => h)
+    intro x op hm; simp only [setProg_prog]; rw [if_neg (by simp)]; exact hm
+  case routerOk => exact h.quiet rfl (fun _ => rfl) (fun _ _ h => h) (fun _ _ h => h) (fun _ h => h)
+  case stopReq c _ =>
+    refine h.quiet rfl (setCtx_byId_of_eq s c _ rfl) (fun _ _ h => h) ?_ (setCtx_routerDown_imp s c _ (fun _ => rfl))
+    exact fun x cb hcb => by simp only [setCtx_ctx]; split <;> simp_all
+  case eof cn cli _ _ hidle _ _ _ =>
+    exact h.quiet rfl (fun _ => rfl) (setProg_sock_mem s _ _ hidle) (fun _ _ h => h) (fun _ h => h)
+  case cbDiscNone c n t q _ hidle hq _ =>
+    intro n' id hm hop hb
+    have hb0 : (s.ctx ((s.conn n').half true).owner).byId id ≠ none := by
+      rw [← setCtx_byId_of_eq s c { (s.ctx c) with loopQ := q } rfl]; exact hb
+    refine (h n' id hm hop hb0).mono (fun _ => rfl) (fun e => e) (fun _ _ _ hm => Or.inl hm)
+      (setProg_sock_mem (s.setCtx c _) c _ hidle) ?_ (fun _ hm => Or.inl hm) (setCtx_routerDown_imp s c _ (fun e => e))
+    intro ok hm'
+    rcases lq_tail s c { (s.ctx c) with loopQ := q } hq rfl _ _ hm' with h1 | ⟨-, h1⟩
+    · exact Or.inl h1
+    · cases h1
+  case cbDisc c n t q cn _ hidle hq _ =>
+    intro n' id hm hop hb
+    have hb0 : (s.ctx ((s.conn n').half true).owner).byId id ≠ none := by
+      rw [← setCtx_byId_of_eq s c { (s.ctx c) with loopQ := q } rfl]; exact hb
+    refine (h n' id hm hop hb0).mono (fun _ => rfl) (fun e => e) (fun _ _ _ hm => Or.inl hm)
+      (setProg_sock_mem (s.setCtx c _) c _ hidle) ?_ (fun _ hm => Or.inl hm) (setCtx_routerDown_imp s c _ (fun e => e))
+    intro ok hm'
+    rcases lq_tail s c { (s.ctx c) with loopQ := q } hq rfl _ _ hm' with h1 | ⟨-, h1⟩
+    · exact Or.inl h1
+    · cases h1
+  case cbUnknown c d m q _ hidle hq hpeer =>
+    intro n' id hm hop hb
+    have hb0 : (s.ctx ((s.conn n').half true).owner).byId id ≠ none := by
+      rw [← setCtx_byId_of_eq s c { (s.ctx c) with loopQ := q } rfl]; exact hb
+    refine (h n' id hm hop hb0).mono (fun _ => rfl) (fun e => e) (fun _ _ _ hm => Or.inl hm)
+      (setProg_sock_mem (s.setCtx c _) c _ hidle) ?_ (fun _ hm => Or.inl hm) (setCtx_routerDown_imp s c _ (fun e => e))
+    intro ok hm'
+    rcases lq_tail s c { (s.ctx c) with loopQ := q } hq rfl _ _ hm' with h1 | ⟨h1, h2⟩
+    · exact Or.inl h1
+    · right; left
+      simp only [Cb.smSend.injEq] at h2
+      obtain ⟨rfl, -⟩ := h2
+      exact closed_of_unregistered hrg (by rw [h1]; exact hidle) (by rw [h1]; exact hpeer)
+  case cbFail c d m q cn _ hidle hq hpeer hcl =>
+    intro n' id hm hop hb
+    have hb0 : (s.ctx ((s.conn n').half true).owner).byId id ≠ none := by
+      rw [← setCtx_byId_of_eq s c { (s.ctx c) with loopQ := q } rfl]; exact hb
+    refine (h n' id hm hop hb0).mono (fun _ => rfl) (fun e => e) (fun _ _ _ hm => Or.inl hm)
+      (setProg_sock_mem (s.setCtx c _) c _ hidle) ?_ (fun _ hm => Or.inl hm) (setCtx_routerDown_imp s c _ (fun e => e))
+    intro ok hm'
+    rcases lq_tail s c { (s.ctx c) with loopQ := q } hq rfl _ _ hm' with h1 | ⟨h1, h2⟩
+    · exact Or.inl h1
+    · exfalso
+      simp only [Cb.smSend.injEq] at h2
+      obtain ⟨rfl, -⟩ := h2
+      obtain ⟨rfl, -, -⟩ := ht.peersA c _ cn hpeer
+      simp only [Peer.isName, Bool.not_false] at hcl
+      change ((s.conn cn).half true).isOpen = true at hop
+      rw [hcl] at hop; cases hop
+  case cbSent c d m q cn _ hidle hq hpeer =>
+    have hok : sendOk s.nextConn d m = true := hty.cbs c (.smSend d m) (by rw [hq]; exact List.mem_cons_self)
+    have hownc : ∀ n b, (((upd s.conn cn (sentConn (s.conn cn) d.isName m)) n).half b).owner = ((s.conn n).half b).owner := by
+      intro n b; simp only [upd]; split
+      · rename_i e; subst e; exact sentConn_owner _ _ _ _
+      · rfl
+    have hopenc : ∀ n b, (((upd s.conn cn (sentConn (s.conn cn) d.isName m)) n).half b).isOpen = ((s.conn n).half b).isOpen := by
+      intro n b; simp only [upd]; split
+      · rename_i e; subst e; exact sentConn_isOpen _ _ _ _
+      · rfl
+    have hinc : ∀ n b x, x ∈ ((s.conn n).half b).inbox → x ∈ (((upd s.conn cn (sentConn (s.conn cn) d.isName m)) n).half b).inbox := by
+      intro n b x hx; simp only [upd]; split
+      · rename_i e; subst e; rw [sentConn_inbox]; split
+        · exact List.mem_append_left _ hx
+        · exact hx
+      · exact hx
+    have hnew : ∀ b, b = !d.isName → ((s.conn cn).half b).isOpen = true →
+        m ∈ (((upd s.conn cn (sentConn (s.conn cn) d.isName m)) cn).half b).inbox := by
+      intro b hb ho; simp only [upd, if_true]; rw [sentConn_inbox, if_pos ⟨hb, ho⟩]; simp
+    intro n' id hm hop hb
+    change id ∈ (((upd s.conn cn (sentConn (s.conn cn) d.isName m)) n').half true).pend at hm
+    change (((upd s.conn cn (sentConn (s.conn cn) d.isName m)) n').half true).isOpen = true at hop
+    change ((s.setCtx c { (s.ctx c) with loopQ := q }).ctx (((upd s.conn cn (sentConn (s.conn cn) d.isName m)) n').half true).owner).byId id ≠ none at hb
+    rw [hopenc] at hop
+    rw [hownc] at hb
+    have hb := setCtx_byId_imp s c _ _ _ hb rfl
+    have hpend : id ∈ ((s.conn n').half true).pend ∨ (n' = cn ∧ d.isName = true ∧ m.reqId? = some id) := by
+      simp only [upd] at hm; split at hm
+      · rename_i e; subst e
+        rw [sentConn_pend] at hm
+        split at hm
+        · rename_i e
+          cases hr : m.reqId? with
+          | none => rw [hr] at hm; exact Or.inl hm
+          | some id' =>
+            rw [hr] at hm
+            rcases List.mem_append.1 hm with h1 | h1
+            · exact Or.inl h1
+            · simp only [List.mem_singleton] at h1; subst h1; exact Or.inr ⟨rfl, e.symm, rfl⟩
+        · exact Or.inl hm
+      · exact Or.inl hm
+    rcases hpend with hm0 | ⟨rfl, hdn, hreq⟩
+    · refine (h n' id hm0 hop hb).mono (fun b => hownc n' b) (fun e => (hopenc n' false).trans e)
+        (fun _ _ _ hx => Or.inl (hinc _ _ _ hx)) (setProg_sock_mem _ c _ hidle) ?_ (fun _ hx => Or.inl (hinc _ _ _ hx))
+        (setCtx_routerDown_imp s c _ (fun e => e))
+      intro ok hm'
+      rcases lq_tail s c { (s.ctx c) with loopQ := q } hq rfl _ _ hm' with h1 | ⟨h1, h2⟩
+      · exact Or.inl h1
+      · right
+        simp only [Cb.smSend.injEq] at h2
+        obtain ⟨rfl, rfl⟩ := h2
+        obtain ⟨rfl, -, -⟩ := ht.peersA c _ cn hpeer
+        exact Or.inr (Or.inr (Or.inr (Or.inr (Or.inl ⟨ok, hnew true (by simp [Peer.isName]) hop⟩))))
+    · -- the request has just been written to the connection
+      obtain ⟨ob, sg, b, rfl⟩ : ∃ ob sg b, m = .subReq id ob sg b := by
+        cases m <;> simp only [Msg.reqId?] at hreq <;> try contradiction
+        simp only [Option.some.injEq] at hreq; subst hreq; exact ⟨_, _, _, rfl⟩
+      cases hsrv : ((s.conn n').half false).isOpen with
+      | false => exact Or.inl ((hopenc n' false).trans hsrv)
+      | true => exact Or.inr (Or.inl ⟨ob, sg, b, hnew false (by simp [hdn]) hsrv⟩)
+  case arrive cn cli m ms hlt _ hidle hopen hin =>
+    have hownc : ∀ n b, (((upd s.conn cn ((s.conn cn).setHalf cli (readHalf ((s.conn cn).half cli) m ms))) n).half b).owner =
+        ((s.conn n).half b).owner := by
+      intro n b; simp only [upd]; split
+      · rename_i e; subst e; rw [half_setHalf']; split
+        · rename_i e; subst e; exact readHalf_owner _ _ _
+        · rfl
+      · rfl
+    have hopenc : ∀ n b, (((upd s.conn cn ((s.conn cn).setHalf cli (readHalf ((s.conn cn).half cli) m ms))) n).half b).isOpen =
+        ((s.conn n).half b).isOpen := by
+      intro n b; simp only [upd]; split
+      · rename_i e; subst e; rw [half_setHalf']; split
+        · rename_i e; subst e; exact readHalf_isOpen _ _ _
+        · rfl
+      · rfl
+    have hinc : ∀ n b x, x ∈ ((s.conn n).half b).inbox →
+        x ∈ (((upd s.conn cn ((s.conn cn).setHalf cli (readHalf ((s.conn cn).half cli) m ms))) n).half b).inbox ∨ (n = cn ∧ b = cli ∧ x = m) := by
+      intro n b x hx; simp only [upd]; split
+      · rename_i e; subst e; rw [half_setHalf']; split
+        · rename_i e; subst e
+          rw [readHalf_inbox]; rw [hin] at hx
+          rcases List.mem_cons.1 hx with h0 | h0
+          · exact Or.inr ⟨rfl, rfl, h0⟩
+          · exact Or.inl h0
+        · exact Or.inl hx
+      · exact Or.inl hx
+    have hpendc : ∀ n id, id ∈ (((upd s.conn cn ((s.conn cn).setHalf cli (readHalf ((s.conn cn).half cli) m ms))) n).half true).pend →
+        id ∈ ((s.conn n).half true).pend := by
+      intro n id hm; simp only [upd] at hm; split at hm
+      · rename_i e; subst e; rw [half_setHalf'] at hm; split at hm
+        · rename_i e; subst e
+          cases m <;> simp only [readHalf] at hm <;> first | exact hm | exact List.mem_of_mem_erase hm
+        · exact hm
+      · exact hm
+    have hpr : ∀ op ∈ dispatch (srcName s cn cli) m,
+        op ∈ (({ s with conn := upd s.conn cn ((s.conn cn).setHalf cli (readHalf ((s.conn cn).half cli) m ms)) }).setProg
+          (.sock ((s.conn cn).half cli).owner) (dispatch (srcName s cn cli) m)).prog (.sock ((s.conn cn).half cli).owner) := by
+      intro op ho; simp only [setProg_prog, if_true]; exact ho
+    intro n' id hm hop hb
+    change (((upd s.conn cn ((s.conn cn).setHalf cli (readHalf ((s.conn cn).half cli) m ms))) n').half true).isOpen = true at hop
+    change (s.ctx (((upd s.conn cn ((s.conn cn).setHalf cli (readHalf ((s.conn cn).half cli) m ms))) n').half true).owner).byId id ≠ none at hb
+    rw [hopenc] at hop
+    rw [hownc] at hb
+    refine (h n' id (hpendc n' id hm) hop hb).mono (fun b => hownc n' b) (fun e => (hopenc n' false).trans e) ?_
+      (setProg_sock_mem _ _ _ hidle) (fun _ hx => Or.inl hx) ?_ (fun _ e => e)
+    · intro ob sg b hx
+      rcases hinc _ _ _ hx with h1 | ⟨rfl, rfl, rfl⟩
+      · exact Or.inl h1
+      · right; right; right; left
+        refine ⟨(if b then MOp.reqChk1 (.alias n') id ob sg else MOp.sendChk (.alias n') (.subReply id true)), ?_, ?_⟩
+        · have := hpr (if b then MOp.reqChk1 (.alias n') id ob sg else MOp.sendChk (.alias n') (.subReply id true))
+            (by cases b <;> simp [dispatch, srcName])
+          simp only [setProg_conn]; rw [hownc]
+          exact this
+        · cases b <;> simp [MOp.serves]
+    · intro ok hx
+      rcases hinc _ _ _ hx with h1 | ⟨rfl, rfl, rfl⟩
+      · exact Or.inl h1
+      · right; right; right; right; right; right; right
+        refine ⟨ok, ?_⟩
+        have := hpr (.handleReply id ok) (by simp [dispatch])
+        simp only [setProg_conn]; rw [hownc]
+        exact this
+  case connect a p hne _ _ _ =>
+    show ReqInv (connState s a p)
+    intro n' id hm hop hb
+    rw [connState_conn] at hm hop hb
+    by_cases e : n' = s.nextConn
+    · subst e; simp [newConn, Conn.half] at hm
+    · simp only [e, if_false] at hm hop hb
+      have hby : ((connState s a p).ctx ((s.conn n').half true).owner).byId = (s.ctx ((s.conn n').half true).owner).byId := by
+        simp only [connState, setCtx_ctx]; (repeat' split) <;> simp_all
+      rw [hby] at hb
+      refine (h n' id hm hop hb).mono (fun b => by rw [connState_conn, if_neg e]) (fun x => by rw [connState_conn, if_neg e]; exact x)
+        (fun _ _ _ hx => Or.inl (by rw [connState_conn, if_neg e]; exact hx)) (fun _ _ hx => hx)
+        (fun _ hx => Or.inl (by rw [connState_loopQ]; exact hx)) (fun _ hx => Or.inl (by rw [connState_conn, if_neg e]; exact hx)) ?_
+      intro c hc; simp only [connState, setCtx_ctx]; (repeat' split) <;> simp_all
+  case stop c _ =>
+    intro n' id hm hop hb
+    change id ∈ ((stopConn c (s.conn n')).half true).pend at hm
+    change ((stopConn c (s.conn n')).half true).isOpen = true at hop
+    change ((s.setCtx c { (s.ctx c) with alive := false, loopQ := [] }).ctx ((stopConn c (s.conn n')).half true).owner).byId id ≠ none at hb
+    rw [stopConn_pend] at hm
+    rw [stopConn_isOpen] at hop
+    rw [stopConn_owner] at hb
+    split at hop
+    · cases hop
+    · rename_i hne
+      simp only [setCtx_ctx, hne, if_false] at hb
+      -- the server end: closed by the stop, or untouched
+      by_cases hsrv : ((s.conn n').half false).owner = c
+      · left
+        show ((stopConn c (s.conn n')).half false).isOpen = false
+        rw [stopConn_isOpen, if_pos hsrv]
+      · refine (h n' id hm hop hb).mono (fun b => stopConn_owner c _ b) ?_ ?_ (fun _ _ hx => hx) ?_ ?_ ?_
+        · intro e; show ((stopConn c (s.conn n')).half false).isOpen = false
+          rw [stopConn_isOpen, if_neg hsrv]; exact e
+        · intro ob sg b hx; left
+          show _ ∈ ((stopConn c (s.conn n')).half false).inbox
+          rw [stopConn_inbox, if_neg hsrv]; exact hx
+        · intro ok hx; left
+          show _ ∈ ((s.setCtx c { (s.ctx c) with alive := false, loopQ := [] }).ctx _).loopQ
+          simp only [setCtx_ctx, hsrv, if_false]; exact hx
+        · intro ok hx; left
+          show _ ∈ ((stopConn c (s.conn n')).half true).inbox
+          rw [stopConn_inbox, if_neg hne]; exact hx
+        · exact setCtx_routerDown_imp s c _ (fun e => e)
+
+theorem reqInv_reach {s : State} (h : Reach s) : ReqInv s := by
+  induction h with
+  | init => exact reqInv_init
+  | step hr hs ih =>
+    rename_i s0 s1 a o
+    by_cases ha : ∃ th ch ch2, a = .micro th ch ch2
+    · obtain ⟨th, ch, ch2, rfl⟩ := ha
+      obtain ⟨-, op, rest, hp, hm⟩ := step_micro_inv hs
+      exact reqInv_micro ih (idInv_reach hr) (pendInv_reach hr) (regInv_reach hr) (tdInv_reach hr) (sockOps_reach hr) hp hm
+    · exact reqInv_nstep ih (idInv_reach hr) (topoInv_reach hr) (typInv_reach hr) (regInv_reach hr)
+        (step_nonmicro_cases (fun th ch ch2 e => ha ⟨th, ch, ch2, e⟩) hs)
+
+/-! ### liveness of registered requests -/
+
+/-- no live context is half-way through `MessageRouter.stop` (a stop that has begun is an enabled continuation: `Act.stop`) -/
+def NoStopPending (s : State) : Prop := ∀ c, (s.ctx c).alive = true → (s.ctx c).routerDown = false
+
+/-- **the peer-side obligation**, restricted to outstanding requests: a request that is registered on a connection end of a
+live context and still outstanding there has an enabled internal action -/
+def NetLiveOut (s : State) : Prop :=
+  ∀ cn cli id, cn < s.nextConn → (s.ctx ((s.conn cn).half cli).owner).alive = true → id ∈ ((s.conn cn).half cli).pend →
+    (s.ctx ((s.conn cn).half cli).owner).byId id ≠ none → ∃ a, a.internal = true ∧ (step s a).isSome = true
+
+theorem sock_progress {s : State} (h : Reach s) {c : Ctx} (hal : (s.ctx c).alive = true) (hne : s.prog (.sock c) ≠ []) :
+    ∃ a, a.internal = true ∧ (step s a).isSome = true := by
+  cases hp : s.prog (.sock c) with
+  | nil => exact absurd hp hne
+  | cons op rest =>
+    have hso := sockOps_reach h c op (by rw [hp]; exact List.mem_cons_self)
+    obtain ⟨ch, ch2, he⟩ := micro_enabled h hp (isWait_false_of_sockOp hso)
+    exact ⟨.micro (.sock c) ch ch2, rfl, step_micro_of_enabled hal hp he⟩
+
+theorem arrive_enabled {s : State} {cn : ConnId} {cli : Bool} (hlt : cn < s.nextConn)
+    (hal : (s.ctx ((s.conn cn).half cli).owner).alive = true) (hidle : s.prog (.sock ((s.conn cn).half cli).owner) = [])
+    (hop : ((s.conn cn).half cli).isOpen = true) (hin : ((s.conn cn).half cli).inbox ≠ []) :
+    (step s (.arrive cn cli)).isSome = true := by
+  simp only [step, hlt, hal, hidle, hop, and_self, if_true]
+  cases hi : ((s.conn cn).half cli).inbox with
+  | nil => exact absurd hi hin
+  | cons m ms => rfl
+
+theorem eof_enabled {s : State} {cn : ConnId} {cli : Bool} (hlt : cn < s.nextConn)
+    (hal : (s.ctx ((s.conn cn).half cli).owner).alive = true) (hidle : s.prog (.sock ((s.conn cn).half cli).owner) = [])
+    (hop : ((s.conn cn).half cli).isOpen = true) (hin : ((s.conn cn).half cli).inbox = [])
+    (hcl : ((s.conn cn).half (!cli)).isOpen = false) : (step s (.eof cn cli)).isSome = true := by
+  simp only [step, hlt, hal, hidle, hop, hin, hcl, and_self, if_true]; rfl
+
+/-- **net_live**: in every reachable state in which no context is half-way through its stop, every outstanding request
+that is registered on a connection end of a live context has an enabled internal action — the request in the peer's
+inbox, the peer's handler, the reply in the peer's queue or in our inbox, our own reply handler, or the end-of-stream /
+teardown of the connection -/
+theorem net_live {s : State} (h : Reach s) (hns : NoStopPending s) : NetLiveOut s := by
+  intro cn cli id hlt hal hm hb
+  have hidv := idInv_reach h
+  have ht := topoInv_reach h
+  cases cli with
+  | false => rw [hidv.pendS cn] at hm; simp at hm
+  | true =>
+    have hop : ((s.conn cn).half true).isOpen = true := by
+      cases ho : ((s.conn cn).half true).isOpen with
+      | true => rfl
+      | false => rw [hidv.pendClosed cn true ho hal] at hm; simp at hm
+    -- the client's socket thread can always make progress once the server end is closed
+    have hclosed : ((s.conn cn).half false).isOpen = false → ∃ a, a.internal = true ∧ (step s a).isSome = true := by
+      intro hcl
+      by_cases hidle : s.prog (.sock ((s.conn cn).half true).owner) = []
+      · by_cases hin : ((s.conn cn).half true).inbox = []
+        · exact ⟨.eof cn true, rfl, eof_enabled hlt hal hidle hop hin hcl⟩
+        · exact ⟨.arrive cn true, rfl, arrive_enabled hlt hal hidle hop hin⟩
+      · exact sock_progress h hal hidle
+    cases hsrv : ((s.conn cn).half false).isOpen with
+    | false => exact hclosed hsrv
+    | true =>
+      have halp := ht.alive cn false hsrv
+      rcases reqInv_reach h cn id hm hop hb with h1 | ⟨ob, sg, b, h1⟩ | ⟨op', ho', -⟩ | ⟨ok, h1⟩ | ⟨ok, h1⟩ | h1 | ⟨ok, h1⟩
+      · rw [hsrv] at h1; cases h1
+      · by_cases hidle : s.prog (.sock ((s.conn cn).half false).owner) = []
+        · exact ⟨.arrive cn false, rfl, arrive_enabled hlt halp hidle hsrv (by intro e; rw [e] at h1; simp at h1)⟩
+        · exact sock_progress h halp hidle
+      · exact sock_progress h halp (by intro e; rw [e] at ho'; simp at ho')
+      · by_cases hidle : s.prog (.sock ((s.conn cn).half false).owner) = []
+        · exact ⟨.cb _ true, rfl, cb_enabled halp hidle (by intro e; rw [e] at h1; simp at h1)⟩
+        · exact sock_progress h halp hidle
+      · by_cases hidle : s.prog (.sock ((s.conn cn).half true).owner) = []
+        · exact ⟨.arrive cn true, rfl, arrive_enabled hlt hal hidle hop (by intro e; rw [e] at h1; simp at h1)⟩
+        · exact sock_progress h hal hidle
+      · rw [hns _ halp] at h1; cases h1
+      · exact sock_progress h hal (by intro e; rw [e] at h1; simp at h1)
+
+/-- **stuck ⇒ answered** (full strength): in a reachable state in which no internal action is enabled and no context is
+half-way through its stop, no live context has an outstanding request and no thread of a live context sits in a
+`subscribe` / `unsubscribe` call -/
+theorem stuck_implies_answered_full {s : State} (h : Reach s) (hst : Stuck s) (hns : NoStopPending s) :
+    (∀ c id, (s.ctx c).alive = true → (s.ctx c).byId id = none) ∧
+    (∀ th, (s.ctx th.ctx).alive = true → s.prog th = [] ∨ ∃ rest, s.prog th = .waitFut :: rest) := by
+  have hnet := net_live h hns
+  have hcp := carPrefix_reach h
+  have hmove : ∀ th op rest, (s.ctx th.ctx).alive = true → s.prog th = op :: rest → op.isWait = true := by
+    intro th op rest hal hp
+    cases hw : op.isWait with
+    | true => rfl
+    | false =>
+      obtain ⟨ch, ch2, he⟩ := micro_enabled h hp hw
+      have := hst (.micro th ch ch2) rfl
+      have h2 := step_micro_of_enabled hal hp he
+      rw [this] at h2; simp at h2
+  have hans : ∀ c id, (s.ctx c).alive = true → (s.ctx c).byId id = none := by
+    intro c id hal
+    cases hb : (s.ctx c).byId id with
+    | none => rfl
+    | some pid =>
+      exfalso
+      rcases carrierInv_reach h c id hal (by rw [hb]; simp) with ⟨th, hc, op, ho, hcar⟩ | ⟨cb, hcb, hcar⟩ | ⟨cn, cli, h1, h2, h3⟩
+      · cases hp : s.prog th with
+        | nil => rw [hp] at ho; simp at ho
+        | cons hd rest =>
+          have hcar' : hd.isCar = true :=
+            head_isCar_of_carPrefix (hp ▸ hcp th) ⟨op, hp ▸ ho, MOp.isCar_of_carries hcar⟩
+          have := hmove th hd rest (by rw [hc]; exact hal) hp
+          rw [isWait_false_of_isCar hcar'] at this; simp at this
+      · cases hp : s.prog (.sock c) with
+        | nil =>
+          have := cb_enabled hal hp (by intro e; rw [e] at hcb; simp at hcb)
+          rw [hst (.cb c true) rfl] at this; simp at this
+        | cons hd rest =>
+          have hso := sockOps_reach h c hd (by rw [hp]; exact List.mem_cons_self)
+          have := hmove (.sock c) hd rest hal hp
+          rw [isWait_false_of_sockOp hso] at this; simp at this
+      · obtain ⟨a, ha, he⟩ := hnet cn cli id h1 (by rw [h2]; exact hal) h3 (by rw [h2, hb]; simp)
+        rw [hst a ha] at he; simp at he
+  refine ⟨hans, ?_⟩
+  intro th hal
+  cases hp : s.prog th with
+  | nil => exact Or.inl rfl
+  | cons hd rest =>
+    right
+    have hw := hmove th hd rest hal hp
+    cases hd <;> simp only [MOp.isWait] at hw <;> (try contradiction)
+    · rename_i pid
+      exfalso
+      have hwo := waitInv_reach h th pid (by rw [hp]; exact List.mem_cons_self)
+      have hpk := pendInv_reach h th.ctx
+      cases hpo : (s.ctx th.ctx).pobj pid with
+      | none => exact hwo.ex hpo
+      | some po =>
+        rcases (hwo.live po hpo).2 with hd | hk
+        · have : (microStep s th 0 0 (.wait pid) rest).isSome = true := by
+            simp only [microStep, hpo]
+            cases hdone : po.done with
+            | none => exact absurd hdone hd
+            | some b => cases b <;> rfl
+          have h2 := step_micro_of_enabled hal hp this
+          rw [hst (.micro th 0 0) rfl] at h2; simp at h2
+        · have := hpk.byKey_cur _ pid po hk hpo
+          rw [hans th.ctx po.cur hal] at this; simp at this
+    · exact ⟨rest, rfl⟩
 
 end QmiModel.PubSub
